@@ -20,6 +20,7 @@ from vt.props import _sched
 from vt.sym import SymInt, mkint
 
 ID = "C15"
+CROSSCHECK = 3  # thorough tier: obligations per case re-decided by the cvc5 binary
 LEVEL = "model_checking"
 TECHNIQUE = "bounded symbolic model checking of the real run_scheduler_loop/delayed_send on a symbolic-time event simulator: start instant, one-shot time, wake-up lateness and listing durations as z3 Ints; timer order as solver-constrained choices"
 EXPLANATION = (
